@@ -14,6 +14,9 @@ CLIENT_ID = b"IOS02ac6d28-42d0-41e3-ad22-274d0aa491da"
 class SpaRig:
     def __init__(self, world: World, snapshot="default.snapshot", sim_cls=None, tap=True):
         self.w = world
+        from . import contracts
+
+        contracts.install()
         self.tap = install_queue_tap() if tap else None
         path = snapshot if os.path.isabs(snapshot) else os.path.join(snapshot_dir(), snapshot)
         self.sim = SimHost(world.net, path, sim_cls=sim_cls)
